@@ -30,6 +30,15 @@ impl<'a> PreReleaseProcessor<'a> {
     }
 
     fn is_var_set(&self, var: &Var) -> bool {
+        // A secondary var finalized without a number (e.g. "post.post") has no value but is
+        // already part of the schema and must not be used a second time
+        if self
+            .schema
+            .extra_core()
+            .contains(&Component::Var(var.clone()))
+        {
+            return true;
+        }
         match var {
             Var::PreRelease => self.vars.pre_release.is_some(),
             Var::Epoch => self.vars.epoch.is_some(),
